@@ -27,11 +27,11 @@ tvars == <<vars, l, od, dead, tr>>
 ModelInit ==
   /\ data' = <<>> /\ cur' = -1 /\ maxTs' = -1 /\ wmCur' = NoWm /\ wmSent' = NoWm /\ wmChan' = <<>>
   /\ open' = <<>> /\ tpc' = "idle" /\ twm' = NoWm /\ pend' = <<>>
-  /\ out' = <<>> /\ emitted' = <<>> /\ hist' = <<>>
+  /\ out' = <<>> /\ emitted' = <<>> /\ hist' = <<>> /\ lq' = <<>>
 Drift(code) == /\ PrintT(<<"DRIFT", tr, l, code>>) /\ dead' = TRUE /\ UNCHANGED <<vars, od, tr>>
 Skip == UNCHANGED <<vars, od, dead, tr>>
 
-AddGuard  == Len(emitted) < MaxEv /\ tpc \in {"idle", "fired"}
+AddGuard  == Len(emitted) < MaxEv /\ tpc \in {"idle", "fired"} /\ lq = <<>>
 TrigGuard == tpc = "idle" /\ wmChan # <<>> /\ cur # -1
 SendGuard == tpc = "fired"
 IdsOfRows(rows) == UNION {SeqSet(rows[i].ids) : i \in 1..Len(rows)}
@@ -53,6 +53,8 @@ TNext ==
         ELSE IF e.cur # cur THEN Drift("current_slot")
         ELSE IF e.no # Len(open) THEN Drift("windows_open_for_late_rows")
         ELSE Skip
+     ELSE IF e.e = "latesend" THEN       \* the producer, parked inside Add after it released tw.mu for the late re-delivery, is let go
+        IF lq = <<>> THEN Drift("no_late_redelivery_pending_in_the_model") ELSE LateSend /\ UNCHANGED <<od, dead, tr>>
      ELSE IF e.e = "freerun" THEN        \* the forced part is over, the engine runs by itself: nothing to bind from here on (no drift)
         dead' = TRUE /\ UNCHANGED <<vars, od, tr>>
      ELSE IF e.e = "trig" THEN
